@@ -56,6 +56,13 @@ ClockOf(run, t) == IF t \in run.known THEN run.clk[t] ELSE Tick(run.fork, t)
 
 Bad(cond, clause) == IF cond THEN {} ELSE {clause}
 
+\* Axiom (Arc): giving up a handle on an item vector is a release on its reference count and the thread that
+\* drops the last handle acquires all of them before it frees the buckets.  The release is placed at the
+\* event that PRECEDES the real decrement (weaker than reality).
+ArcRelease(e) ==
+  \/ e.site = "call" /\ e.api \in {"drop_injector", "restart", "drop_nucleo"}
+  \/ e.site \in {"tick.snapshot_update"}
+
 \* a non-atomic write / read of data location x by a thread whose clock is c
 WriteFails(run, x, c) ==
   Bad(~Has(run.wr, x) \/ Leq(run.wr[x], c), "write_races_with_earlier_write")
@@ -99,10 +106,12 @@ Step ==
              /\ mstat' = [mstat EXCEPT !.events = @ + 1, !.atomics = @ + 1, !.fails = @ + Cardinality(F),
                                        !.syncs = @ + (IF cAcq # c THEN 1 ELSE 0)]
         ELSE IF e.site \in {"entry.write", "entry.drop"} THEN
-             LET x == <<"entry", e.base, e.i>>  F == WriteFails(mrun, x, c) IN
+             LET x == <<"entry", e.base, e.i>>
+                 cc == IF e.site = "entry.drop" THEN Join(c, Get(mrun.rel, <<"arc", 0>>)) ELSE c
+                 F == WriteFails(mrun, x, cc) IN
              /\ Report(mrun, F, e)
-             /\ mrun' = [base EXCEPT !.clk[t] = c, !.wr = Put(mrun.wr, x, c), !.rd = [y \in DOMAIN mrun.rd \ {x} |-> mrun.rd[y]],
-                                     !.parJoin = IF mrun.parOpen THEN Join(@, c) ELSE @]
+             /\ mrun' = [base EXCEPT !.clk[t] = cc, !.wr = Put(mrun.wr, x, cc), !.rd = [y \in DOMAIN mrun.rd \ {x} |-> mrun.rd[y]],
+                                     !.parJoin = IF mrun.parOpen THEN Join(@, cc) ELSE @]
              /\ mstat' = [mstat EXCEPT !.events = @ + 1, !.accesses = @ + 1, !.fails = @ + Cardinality(F)]
         ELSE IF e.site = "entry.read" THEN
              LET x == <<"entry", e.base, e.i>>  F == ReadFails(mrun, x, c) IN
@@ -117,14 +126,15 @@ Step ==
              LET x == <<"bucketmem", e.base>>
                  \* freeing is a write to the bucket memory and to every entry in it
                  ents == {y \in DOMAIN mrun.wr : y[1] = "entry" /\ y[2] = e.base}
-                 F == WriteFails(mrun, x, c)
-                      \cup UNION {WriteFails(mrun, y, c) : y \in ents} IN
+                 cc == Join(c, Get(mrun.rel, <<"arc", 0>>))
+                 F == WriteFails(mrun, x, cc)
+                      \cup UNION {WriteFails(mrun, y, cc) : y \in ents} IN
              /\ Report(mrun, F, e)
-             /\ mrun' = [base EXCEPT !.clk[t] = c]
+             /\ mrun' = [base EXCEPT !.clk[t] = cc]
              /\ mstat' = [mstat EXCEPT !.events = @ + 1, !.accesses = @ + 1, !.fails = @ + Cardinality(F)]
         ELSE IF e.site = "matcher.use" THEN
              \* the per-thread matcher scratch memory: every use is a write
-             LET x == <<"matcher", e.addr>>  F == WriteFails(mrun, x, c) IN
+             LET x == <<"matcher", e.a[1]>>  F == WriteFails(mrun, x, c) IN
              /\ Report(mrun, F, e)
              /\ mrun' = [base EXCEPT !.clk[t] = c, !.wr = Put(mrun.wr, x, c),
                                      !.parJoin = IF mrun.parOpen THEN Join(@, c) ELSE @]
@@ -132,11 +142,17 @@ Step ==
         ELSE IF e.site = "start" THEN          \* harness threads are spawned after this point
              /\ mrun' = [base EXCEPT !.clk[t] = c, !.fork = c]
              /\ mstat' = [mstat EXCEPT !.events = @ + 1]
+        ELSE IF e.site = "spawn" THEN          \* a harness thread is spawned after this point
+             /\ mrun' = [base EXCEPT !.clk[t] = c, !.fork = c]
+             /\ mstat' = [mstat EXCEPT !.events = @ + 1]
+        ELSE IF ArcRelease(e) THEN             \* a handle on an item vector is given up at or after this point
+             /\ mrun' = [base EXCEPT !.clk[t] = c, !.rel = Put(mrun.rel, <<"arc", 0>>, Join(Get(mrun.rel, <<"arc", 0>>), c))]
+             /\ mstat' = [mstat EXCEPT !.events = @ + 1]
         ELSE IF e.site = "joined" THEN         \* all harness threads have been joined
              /\ mrun' = [base EXCEPT !.clk[t] = JoinAll({ClockOf(mrun, v) : v \in mrun.known} \cup {c})]
              /\ mstat' = [mstat EXCEPT !.events = @ + 1]
         ELSE IF e.site = "tick.spawn" THEN     \* rayon spawn: the run starts after this point
-             /\ mrun' = [base EXCEPT !.clk[t] = c, !.rel = Put(mrun.rel, <<"spawn", 0>>, c)]
+             /\ mrun' = [base EXCEPT !.clk[t] = c, !.rel = Put(Put(mrun.rel, <<"spawn", 0>>, c), <<"arc", 0>>, Join(Get(mrun.rel, <<"arc", 0>>), c))]
              /\ mstat' = [mstat EXCEPT !.events = @ + 1]
         ELSE IF e.site = "run.begin" THEN
              /\ mrun' = [base EXCEPT !.clk[t] = Join(c, Get(mrun.rel, <<"spawn", 0>>)), !.parOwner = e.role]
@@ -144,6 +160,9 @@ Step ==
         ELSE IF e.site = "run.end" THEN        \* the worker mutex is released after this point ...
              /\ mrun' = [base EXCEPT !.clk[t] = c, !.rel = Put(mrun.rel, <<"workerlock", 0>>, c)]
              /\ mstat' = [mstat EXCEPT !.events = @ + 1]
+        ELSE IF e.site = "drop.lock" /\ e.a[1] = 0 THEN   \* Nucleo::drop waits for the worker lock as well
+             /\ mrun' = [base EXCEPT !.clk[t] = Join(c, Get(mrun.rel, <<"workerlock", 0>>))]
+             /\ mstat' = [mstat EXCEPT !.events = @ + 1, !.syncs = @ + 1]
         ELSE IF e.site = "tick.locked" THEN    \* ... and acquired before this one
              /\ mrun' = [base EXCEPT !.clk[t] = Join(c, Get(mrun.rel, <<"workerlock", 0>>))]
              /\ mstat' = [mstat EXCEPT !.events = @ + 1, !.syncs = @ + 1]
